@@ -45,7 +45,8 @@ NoJob == [sub |-> FALSE, key |-> 0, ttl |-> -1, port |-> FALSE, prio |-> 0, nd |
           st |-> 0, h |-> 0, d |-> 0, why |-> "", acc |-> FALSE, ret |-> FALSE, lost |-> 0, undeliv |-> FALSE,
           rleft |-> 0, att |-> 0, seq |-> 0, r0 |-> 0]    \* RetriableMessage: retries left (MessageRetryStrategy::Count), attempts so far
 NoAct == [wid |-> NoW, mb |-> <<>>, run |-> 0, st |-> "none", stop |-> FALSE, kill |-> FALSE, dying |-> FALSE]
-NewWorker(inc, lim, mode) == [inc |-> inc, mq |-> <<>>, cur |-> {}, pend |-> [k \in Keys |-> 0], dr |-> FALSE, lim |-> lim, mode |-> mode]
+\* hg: identity (generation) of the discard handler this worker slot holds a copy of (WorkerProperties.discard_handler)
+NewWorker(inc, lim, mode, hg) == [inc |-> inc, mq |-> <<>>, cur |-> {}, pend |-> [k \in Keys |-> 0], dr |-> FALSE, lim |-> lim, mode |-> mode, hg |-> hg]
 Msg(m, a, b, c, g) == [m |-> m, a |-> a, b |-> b, c |-> c, g |-> g]
 Fx(e, a, b, c) == [e |-> e, a |-> a, b |-> b, c |-> c]
 
@@ -60,9 +61,9 @@ InitMon == [dev |-> {}, exclBad |-> FALSE, fifoBad |-> FALSE, lastStart |-> [k \
             lost2 |-> FALSE, panic |-> FALSE, qbBad |-> FALSE, qbBad2 |-> FALSE, idleBad |-> FALSE, rrSeen |-> {}, rrN |-> 0, rrBad |-> FALSE, ans |-> <<>>, nseq |-> 0]
 \* the handler record: factory state + scratch fields (fx, dev, born) that are empty between steps
 InitF(n, lim, mode, lb, lbon, fq) ==
-  [q |-> <<>>, pool |-> [w \in 0 .. (n - 1) |-> NewWorker(w + 1, IF fq THEN -1 ELSE lim, IF fq THEN "none" ELSE mode)],
+  [q |-> <<>>, pool |-> [w \in 0 .. (n - 1) |-> NewWorker(w + 1, IF fq THEN -1 ELSE lim, IF fq THEN "none" ELSE mode, 0)],
    ps |-> n, drain |-> 0, av |-> IF fq THEN [i \in 1 .. n |-> i - 1] ELSE <<>>, inq |-> IF fq THEN 0 .. (n - 1) ELSE {},
-   last |-> 0, lbon |-> lbon, lb |-> lb, lim |-> lim, mode |-> mode,
+   last |-> 0, lbon |-> lbon, lb |-> lb, lim |-> lim, mode |-> mode, hg |-> 0,
    up |-> "run", stopreq |-> FALSE, ni |-> n,
    fx |-> <<>>, dev |-> {}, born |-> {}, bad |-> FALSE, rr |-> <<>>]
 
@@ -75,7 +76,9 @@ PoolAdd(S, w, r) == [S EXCEPT !.pool = [x \in (DOMAIN S.pool) \cup {w} |-> IF x 
 Track(p, k) == [p EXCEPT ![k] = @ + 1]
 Untrack(p, k) == [p EXCEPT ![k] = IF @ > 0 THEN @ - 1 ELSE 0]
 IncAlive(S, i) == i \in S.born \/ (i \in Incs /\ act[i].st = "alive")
-Disc(S, j, why) == AddFx(S, Fx("disc", j, 0, why))
+\* a discard is reported to the handler the discarding site holds: the factory's own (S.hg) or the worker slot's copy
+Disc(S, j, why) == AddFx(S, Fx("disc", j, S.hg, why))
+DiscW(S, w, j, why) == AddFx(S, Fx("disc", j, S.pool[w].hg, why))
 Accept(S, j) == AddFx(S, Fx("acc", j, 0, ""))       \* Job::accept  (a no-op once the port was used)
 \* job.rs RetriableMessage::drop: a message object that is dropped without `completed()` re-submits itself to the factory
 \* (retry hook, then cast of a new Dispatch) while retries remain and its TTL has not expired
@@ -96,7 +99,7 @@ NextLive(S, w) ==
   ELSE LET j == Head(wr.mq)
            S1 == SetW(S, w, [wr EXCEPT !.mq = Tail(@)])
        IN IF ~Expired(j) THEN [S |-> S1, j |-> j]
-          ELSE NextLive(Disc(SetW(S1, w, [S1.pool[w] EXCEPT !.pend = Untrack(@, KeyOf(j))]), j, "ttl"), w)
+          ELSE NextLive(DiscW(SetW(S1, w, [S1.pool[w] EXCEPT !.pend = Untrack(@, KeyOf(j))]), w, j, "ttl"), w)
 
 \* dispatch_job: cast to the worker actor; a closed worker keeps the job at the head of its queue
 DispatchJob(S, w, j) ==
@@ -110,13 +113,13 @@ ShedOldestW(S, w) ==
   IF Len(S.pool[w].mq) <= S.pool[w].lim THEN S
   ELSE LET n == NextLive(S, w) IN
        IF n.j = 0 THEN n.S
-       ELSE ShedOldestW(DropJob(Disc(SetW(n.S, w, [n.S.pool[w] EXCEPT !.pend = Untrack(@, KeyOf(n.j))]), n.j, "loadshed"), n.j), w)
+       ELSE ShedOldestW(DropJob(DiscW(SetW(n.S, w, [n.S.pool[w] EXCEPT !.pend = Untrack(@, KeyOf(n.j))]), w, n.j, "loadshed"), n.j), w)
 
 \* enqueue_job
 EnqueueJob(S, w, j) ==
   LET wr == S.pool[w] IN
   IF wr.lim >= 0 /\ wr.mode = "newest" /\ ~Avail(wr) /\ Len(wr.mq) >= wr.lim
-    THEN Reject(Disc(S, j, "loadshed"), j)
+    THEN Reject(DiscW(S, w, j, "loadshed"), j)
     ELSE LET S1 == Accept(S, j)
              S2 == SetW(S1, w, [S1.pool[w] EXCEPT !.pend = Track(@, KeyOf(j))])
          IN IF S2.pool[w].cur = {}
@@ -273,7 +276,7 @@ Grow(S, w, to) ==
          Grow(IF Avail(S1.pool[w]) THEN AvailChange(S1, w, TRUE) ELSE S1, w + 1, to)
     ELSE LET ni == S.ni + 1
              S1 == AddFx([S EXCEPT !.ni = ni, !.born = @ \cup {ni}], Fx("spawn", w, ni, ""))
-         IN Grow(AvailChange(PoolAdd(S1, w, NewWorker(ni, WLim(S), WMode(S))), w, TRUE), w + 1, to)
+         IN Grow(AvailChange(PoolAdd(S1, w, NewWorker(ni, WLim(S), WMode(S), S.hg)), w, TRUE), w + 1, to)
 RECURSIVE Shrink(_, _, _)
 Shrink(S, w, to) ==
   IF w >= to THEN S
@@ -288,8 +291,11 @@ Resize(S, n, ord) ==
   ELSE [Shrink(S, n, S.ps) EXCEPT !.ps = n]
 
 \* update_settings (discard settings and worker count)
-UpdateSettings(S, lim, mode, wc, ord) ==
-  LET S1 == IF lim = -2 THEN S
+\* hg # 0: a new discard handler, copied into every worker slot (also the draining ones) and the factory
+UpdateSettings(S0, lim, mode, wc, hg, ord) ==
+  LET S == IF hg = 0 THEN S0
+           ELSE [S0 EXCEPT !.hg = hg, !.pool = [w \in DOMAIN S0.pool |-> [S0.pool[w] EXCEPT !.hg = hg]]]
+      S1 == IF lim = -2 THEN S
             ELSE [S EXCEPT !.lim = lim, !.mode = mode,
                            !.pool = [w \in DOMAIN S.pool |-> [S.pool[w] EXCEPT !.lim = IF FQ THEN -1 ELSE lim, !.mode = IF FQ THEN "none" ELSE mode]]]
   IN IF wc = -1 THEN S1 ELSE Resize(S1, wc, ord)
@@ -353,7 +359,7 @@ Handle(S, m, ord) ==
       [] m.m = "finished" -> Finished(S, m.a, m.b, m.g, ord)
       [] m.m = "adjust" -> Resize(S, m.a, ord)
       [] m.m = "drain" -> AddFx([S EXCEPT !.drain = 1], Fx("hook", 0, 0, "draining"))
-      [] m.m = "update" -> UpdateSettings(S, m.a, m.c, m.b, ord)
+      [] m.m = "update" -> UpdateSettings(S, m.a, m.c, m.b, m.g, ord)
       [] m.m = "calc" -> Calc(S)
       [] m.m = "q_depth" -> Answer(S, Len(S.q))
       [] m.m = "q_active" -> Answer(S, Cardinality({w \in DOMAIN S.pool : Working(S.pool[w])}))
